@@ -331,7 +331,7 @@ def eval_history(c, exe, ws, rows, sid, ops, monitor, tag="h"):
     return res
 
 
-def session_check(c, pid, monitor, histories, rows_for, exe, ws, what_prop):
+def session_check(c, pid, monitor, histories, rows_for, exe, ws, what_prop, report_diffs=True):
     """histories: list of (sid, ops, table_id); rows_for[table_id] = rows.
     Runs them in batches per table, compares impl/model, monitors, shrinks, reports.  Returns stats."""
     stats = {"histories": 0, "ops": 0, "diffs": 0, "violations": 0, "crashes": 0, "kinds": {}, "nontrivial": set(),
@@ -369,7 +369,7 @@ def session_check(c, pid, monitor, histories, rows_for, exe, ws, what_prop):
                     why = monitor(states.setdefault(h, {}), op, o)
                     if why and h not in bad_hist:
                         bad_hist[h] = ("viol", j, op, why)
-                if i < len(model) and impl[i] != model[i] and h not in bad_hist:
+                if report_diffs and i < len(model) and impl[i] != model[i] and h not in bad_hist:
                     bad_hist[h] = ("diff", j, op, None)
             crashed = None
             if rc != 0:
